@@ -64,6 +64,24 @@ template <class T> struct Expert {
     bool colequ() const { return equed[0] == 'C' || equed[0] == 'B'; }
 };
 
+// Known finding F-ILU (an incomplete factorization can leave a column without a pivot row: perm_r is returned with -1
+// entries and L carries the row index -1).  Whatever ?gsisx does with such factors afterwards (pivot growth, condition
+// estimate, solve) reads out of bounds, so the class cannot be recognised after the call; it is recognised before it:
+// the same matrix and options are factored once with nrhs = 0 and without the optional estimates.  Call before bind();
+// returns true when that factorization breaks down (the case then belongs to the known class and must be left alone).
+template <class T> inline bool ilu_probe_breakdown(const Expert<T> &e)
+{
+    if (!e.ilu || e.so.Fact == FACTORED) return false;
+    Expert<T> p; p.init(e.n, 0, e.n, e.n); p.ilu = true; p.S = e.S; p.B.assign(1, sentinel_value<T>());
+    p.so = e.so; p.so.ConditionNumber = NO; p.so.PivotGrowth = NO; p.perm_c = e.perm_c; p.perm_r = e.perm_r; p.etree = e.etree;
+    p.equed[0] = e.equed[0]; p.Rs = e.Rs; p.Cs = e.Cs;
+    p.bind();
+    if (p.call()) { vf_purge(); return false; }   // an abort is judged by the real call
+    bool bad = p.info >= 0 && p.info <= e.n + 1 && !is_perm(p.perm_r.data(), e.n);
+    p.teardown();
+    return bad;
+}
+
 inline uint64_t dig_raw(uint64_t h, const void *p, size_t bytes) { return bytes ? fnv1a(p, bytes, h) : h; }
 template <class T> inline uint64_t factor_digest_raw(const SuperMatrix *L, const SuperMatrix *U, const int *perm_r, const int *perm_c, int n)
 {
